@@ -82,17 +82,22 @@ AvarRequirements(ax) ==
 AvarMap(seg, x) == IF Len(seg) = 0 THEN x ELSE PiecewiseLinearMap(seg, x)
 NormalizeVF(fv, av, u) == AvarMap(av, NormalizeValue(u, fv))
 
-(* probe points of one axis: the axis triple, every knot, half way between neighbours, and one
-   unit outside the range (where both sides clamp) *)
+(* probe points of one axis: the axis triple, every knot inside the range, the point half way between
+   each two NEIGHBOURING knots, and one unit outside the range on both sides (where both maps clamp) *)
 KnotUsers(ax) == {ax.min, ax.def, ax.max} \cup {ax.map[i][1] : i \in 1..Len(ax.map)}
+SortedKnots(ax) == SortSeq(SetToSeq({k \in KnotUsers(ax) : RLe(ax.min, k) /\ RLe(k, ax.max)}), LAMBDA p, q : RLt(p, q))
 Probes(ax) ==
-  LET K == {k \in KnotUsers(ax) : RLe(ax.min, k) /\ RLe(k, ax.max)}
-      mids == {RMul(RAdd(a, b), RHalf) : a \in K, b \in K}
-  IN K \cup mids \cup {RSub(ax.min, ROne), RAdd(ax.max, ROne)}
-AxisMappingWant(ax, u) == NormalizeDesign(ax, MapFwd(ax, Clamp(u, ax.min, ax.max)))
+  LET K == SortedKnots(ax)
+  IN {K[i] : i \in 1..Len(K)} \cup {RMul(RAdd(K[i], K[i + 1]), RHalf) : i \in 1..(Len(K) - 1)}
+       \cup {RSub(ax.min, ROne), RAdd(ax.max, ROne)}
+(* dt = DesignTriple(ax), passed in so that it is computed once per axis *)
+AxisMappingWantT(ax, dt, u) == NormalizeValue(MapFwd(ax, Clamp(u, ax.min, ax.max)), dt)
+AxisMappingWant(ax, u) == AxisMappingWantT(ax, DesignTriple(ax), u)
 AxisMappingAt(ax, fv, av, u, tol) == Within(NormalizeVF(fv, av, u), AxisMappingWant(ax, u), tol)
+AxisMappingAxis(ax, fv, av, tol) ==
+  LET dt == DesignTriple(ax) IN \A u \in Probes(ax) : Within(NormalizeVF(fv, av, u), AxisMappingWantT(ax, dt, u), tol)
 AxisMapping(axes, vf, tol) ==
-  \A a \in 1..Len(axes) : \A u \in Probes(axes[a]) : AxisMappingAt(axes[a], vf.fvar[a], vf.avar[a], u, tol)
+  \A a \in 1..Len(axes) : AxisMappingAxis(axes[a], vf.fvar[a], vf.avar[a], tol)
 
 (* ---- master locations ------------------------------------------------------------------------- *)
 NormalizedLoc(axes, loc) == TLCEval([a \in 1..Len(axes) |-> NormalizeDesign(axes[a], loc[a])])
